@@ -17,7 +17,7 @@ const STACK: usize = 8 << 20;
 pub static DEF: CheckDef = CheckDef {
     id: "C12",
     level: "exploration",
-    rule: "(handshake, enumerated completely) legacy Connect{version m} for m in {0,13,14,15,20,21,255,u32::MAX} and Connect2{major in {0,1,2}, minor in {0,13,14..21,255,u32::MAX}} x with/without user data x accept/reject through the public Acceptor: success exactly for legacy 1.14 and new 1.x>=14, negotiated = min(minor,20), otherwise the matching incompatible-version reply; accepted connections answer Sync, refused ones are closed. (gating, enumerated completely) negotiated version 1.14..1.20 x every client-to-broker kind that has a version gate (and ungated control kinds): connection closed iff the kind is newer than the version (table restated from the changelog), state released. (traffic, generated) ordered version pairs x {call, reply, event, item, call2-with-version} x generated payloads in the sender's epoch: the receiver gets the form its version understands (CallFunction below 1.19, no AbortFunctionCall below 1.16), payload meaning preserved, no 1.20 encodings below 1.20. Non-trivial: the two ends differ in epoch or in a gated feature. Distinct = matrix cell / concrete traffic case.",
+    rule: "(handshake, enumerated completely) legacy Connect{version m} for m in {0,13,14,15,20,21,255,u32::MAX} and Connect2{major in {0,1,2}, minor in {0,13,14..21,255,u32::MAX}} x with/without user data x accept/reject through the public Acceptor: success exactly for legacy 1.14 and new 1.x>=14, negotiated = min(minor,20), otherwise the matching incompatible-version reply; accepted connections answer Sync, refused ones are closed. (gating, enumerated completely) negotiated version 1.14..1.20 x every client-to-broker kind that has a version gate (and ungated control kinds): connection closed iff the kind is newer than the version (table restated from the changelog), state released. (mixed, generated) histories (<= 50 steps, concurrent batches) of every kind of bus activity incl. disconnects between 2-7 raw peers of versions 1.14..1.20, lock-step against the reference model, and every message any connection receives must exist in its negotiated version and carry no 1.20 container encoding below 1.20. (traffic, generated) ordered version pairs x {call, reply, event, item, call2-with-version} x generated payloads in the sender's epoch: the receiver gets the form its version understands (CallFunction below 1.19, no AbortFunctionCall below 1.16), payload meaning preserved, no 1.20 encodings below 1.20. Non-trivial: the two ends differ in epoch or in a gated feature. Distinct = matrix cell / concrete traffic case.",
     assumptions: &[
         "version table restated from the changelog: abort 1.16; introspection + CreateService2 + QueryServiceInfo 1.17; service/all-events subscription 1.18; CallFunction2 1.19; epoch-2 encodings 1.20",
         "the real ClientBuilder side of the handshake is exercised by the client-level checks (C06/C15), not here",
@@ -26,7 +26,7 @@ pub static DEF: CheckDef = CheckDef {
     case,
     render,
     crashy: false,
-    floors: &[("traffic:epoch-differs", 0.2), ("traffic:call2-to-older", 0.03), ("traffic:abort-to-older", 0.01)],
+    floors: &[("traffic:epoch-differs", 0.1), ("traffic:call2-to-older", 0.015), ("traffic:abort-to-older", 0.005), ("version:abort-withheld-from-old-callee:disconnect", 0.002), ("version:call-to-pre-1.19-callee", 0.01)],
     extra: Some(matrices),
     extra_coverage: Some(|_| serde_json::json!({"exhaustive_classes": ["handshake", "gating"]})),
 };
@@ -36,10 +36,16 @@ fn plan(t: Tier) -> Vec<ClassPlan> {
         Tier::Quick => 1,
         Tier::Thorough => 25,
     };
-    vec![ClassPlan { class: "traffic", cases: 30_000 * k, min_len: 12, max_len: 300 }]
+    vec![
+        ClassPlan { class: "traffic", cases: 30_000 * k, min_len: 12, max_len: 300 },
+        ClassPlan { class: "mixed", cases: 20_000 * k, min_len: 16, max_len: 1200 },
+    ]
 }
 
 fn case(class: &str, tape: &[u8], _strict: bool) -> Outcome {
+    if class == "mixed" {
+        return crate::checks::run_history(&crate::checks::P_C12, tape);
+    }
     let tape = tape.to_vec();
     let class = class.to_string();
     let det = Tape::new(&tape).u32() as u64;
@@ -58,6 +64,7 @@ fn case(class: &str, tape: &[u8], _strict: bool) -> Outcome {
 
 fn render(class: &str, tape: &[u8]) -> String {
     match class {
+        "mixed" => crate::checks::render_history(&crate::checks::P_C12, tape),
         "handshake" => {
             let h = decode_handshake(tape);
             format!("handshake legacy={} major={} minor={} user_data={} accept={}", h.legacy, h.major, h.minor, h.user, h.accept)
